@@ -284,6 +284,7 @@ func (eng *Engine) verifyFunctionSpec(fn *ssa.Function, modes Modes, spec map[st
 		if modes.Frame || len(ct.Modifies) > 0 {
 			var refs []string
 			var ranges []modRange
+			var kindsOnly []modTarget
 			for _, m := range ct.Modifies {
 				e := top.newEnv(st0, nil, nil)
 				var v tv
@@ -302,9 +303,11 @@ func (eng *Engine) verifyFunctionSpec(fn *ssa.Function, modes Modes, spec map[st
 				}
 				refs = append(refs, rg.ref)
 				ranges = append(ranges, rg)
+				kindsOnly = append(kindsOnly, modTarget{kinds: targetKinds(v.typ)})
 			}
 			g.modRefs = refs
 			g.modRanges = ranges
+			g.modKindsOnly = kindsOnly
 			g.modAll = ct.ModifiesAll
 			if ct.ModifiesAll {
 				g.modset = func(r string) string { return "true" }
